@@ -28,6 +28,21 @@ def tags_of(files, op):
             stmts.setdefault(st.module or "", []).append(id(st))
     if any(len(set(v)) > 1 for v in stmts.values()):
         tags.add("same-module-name-in-several-import-statements")
+    # an import used only in a parameter default of a parameter with the same spelling
+    imported = set(bound)
+    for fn in ast.walk(tree):
+        if isinstance(fn, (ast.FunctionDef, ast.AsyncFunctionDef, ast.Lambda)):
+            a = fn.args
+            params = a.posonlyargs + a.args + a.kwonlyargs
+            defaults = [None] * (len(a.posonlyargs + a.args) - len(a.defaults)) + list(a.defaults) + list(a.kw_defaults)
+            for prm, dflt in zip(params, defaults):
+                if dflt is not None and any(isinstance(n, ast.Name) and n.id == prm.arg and n.id in imported for n in ast.walk(dflt)):
+                    tags.add("import-read-in-the-default-of-a-parameter-of-the-same-name")
+    # an import in a package __init__ that nothing in that file uses: a re-export
+    if op["path"].endswith("__init__.py"):
+        used = {n.id for n in ast.walk(tree) if isinstance(n, ast.Name) and isinstance(n.ctx, ast.Load)}
+        if imported - used:
+            tags.add("re-export-in-package-init")
     if op["api"] == "froms_to_imports":
         # 'from package import module' names a submodule, not an attribute
         import posixpath
